@@ -18,7 +18,7 @@ from ..ctx import stable_hash
 
 ID = "C14"
 LEVEL = "fault_enumeration"
-TIERS = {"quick": {"shards": 16, "budget_s": 120, "streams": 2, "max_blocks": 12, "schedules_per_point": 3, "line_runs": 6, "sigint": 4, "systematic_pipelines": 1, "systematic_deviations": 1, "fault_runs": 8, "lagging_saver_runs": 4},
+TIERS = {"quick": {"shards": 16, "budget_s": 120, "streams": 2, "max_blocks": 12, "schedules_per_point": 3, "line_runs": 12, "sigint": 4, "systematic_pipelines": 1, "systematic_deviations": 1, "fault_runs": 8, "lagging_saver_runs": 4},
          "thorough": {"shards": 16, "budget_s": 900, "streams": 14, "max_blocks": 40, "schedules_per_point": 12, "line_runs": 300, "sigint": 64, "systematic_pipelines": 4, "systematic_deviations": 2, "fault_runs": 400, "lagging_saver_runs": 200}}
 RULE = ("Fault enumeration of the stop point: for each generated stream of n blocks the scheduled main thread calls stop_all() "
         "after k source reads have started, for EVERY k in 0..n+2 (before the first read, between any two reads, after the "
@@ -165,6 +165,12 @@ def one(ctx, case, data, tmpdir):
     ctx.seen("stop_points(reads_started_at_stop)", at)
     if case.get("line_p"):
         ctx.count("line_mode_runs")
+        if case.get("line_gran") == "instr":
+            ctx.count("instruction_mode_runs")
+            ctx.maxi("instruction_sites_seen", res.info["lines_seen"])
+        elif case.get("line_scope") == "all":
+            ctx.count("all_module_line_mode_runs")
+            ctx.maxi("all_module_lines_seen", res.info["lines_seen"])
         ctx.count("line_preemptions", res.info["line_preemptions"])
     ok = check_run(ctx, case, data, res, tmpdir)
     if ok and ctx.want_sample() and 0 < at <= nblocks_total:
@@ -503,7 +509,7 @@ def run_shard(ctx):
                 break
         rng = ctx.rng("lines")
         for i in range(conf["line_runs"]):
-            case = P.random_pipeline_case(rng, max_windows=14, want_stop=True, line_mode=True)
+            case = P.random_pipeline_case(rng, max_windows=14 if i % 4 == 0 else 8, want_stop=True, line_mode=(True, "instr", "all", "instr")[i % 4])
             if "rec" not in case["observers"]:
                 case["observers"] = list(case["observers"]) + ["rec"]
                 case["observer_timeouts"] = list(case["observer_timeouts"]) + [0.2]
@@ -535,7 +541,7 @@ def inconclusive(merged, tier):
     c = merged["counters"]
     need = ["scheduled_runs", "stop_points_enumerated", "streams_with_every_stop_point_covered", "stops_before_stream_end",
             "stops_with_a_read_in_flight", "observer_logs_checked", "saved_streams_checked", "joiner_files_checked",
-            "line_mode_runs", "sigint_children_checked", "timeouts_fired", "systematic_schedules", "systematic_pipelines_fully_enumerated", "stops_after_an_injected_source_fault", "lagging_saver_runs", "huge_stop_runs", "unencodable_stop_runs"]
+            "line_mode_runs", "instruction_mode_runs", "all_module_line_mode_runs", "sigint_children_checked", "timeouts_fired", "systematic_schedules", "systematic_pipelines_fully_enumerated", "stops_after_an_injected_source_fault", "lagging_saver_runs", "huge_stop_runs", "unencodable_stop_runs"]
     out = [f"monitor never observed {k}" for k in need if c.get(k, 0) == 0]
     if c.get("inconclusive_runs", 0) > max(3, c.get("scheduled_runs", 0) // 50):
         out.append(f"{c['inconclusive_runs']} runs hit a step/wall cap or the sigint driver's watchdog")
